@@ -98,10 +98,18 @@ for ax in "xyz":
 
 # (5) histories: retrieval, in-place modification by the caller, subsequent lookups
 hist_bad = []; n_hist = 0
-def snapshot():
-    return {c: np.array(getattr(p3, f"mdc_gid_to_{c}")(g)) for c in ("west_x", "east_y", "layer", "stereo")} | \
-           {c: np.array(getattr(p3, f"emc_gid_to_{c}")(ge)) for c in ("center_x", "front_center_z", "theta")} | \
-           {"px3": np.array(p3.emc_gid_to_point_x(ge, 3))}
+# numba freezes the module-level tables into a kernel when it is compiled (per input dtype), so an aliased table shows up
+# (a) in later table retrievals and (b) in lookups through a dtype specialisation compiled AFTER the modification.
+FRESH_DTYPES = [np.int16, np.uint16, np.int32, np.uint32, np.uint64]
+def snapshot(dt=np.int64):
+    gm = g.astype(dt); gem = ge.astype(dt)
+    s = {c: np.array(getattr(p3, f"mdc_gid_to_{c}")(gm)) for c in ("west_x", "east_y", "layer", "stereo", "wire", "superlayer", "is_stereo", "east_z")} | \
+        {c: np.array(getattr(p3, f"emc_gid_to_{c}")(gem)) for c in ("center_x", "front_center_z", "theta", "part", "phi")} | \
+        {f"p{ax}{k}": np.array(getattr(p3, f"emc_gid_to_point_{ax}")(gem, dt(k))) for ax in "xyz" for k in (0, 3, 7)} | \
+        {"zx": np.array(p3.mdc_gid_z_to_x(gm, 12.5))}
+    tm = p3.get_mdc_wire_position(); te = p3.get_emc_crystal_position()
+    s |= {f"tab.mdc.{c}": np.array(tm[c]) for c in tm} | {f"tab.emc.{c}": np.array(te[c]) for c in te}
+    return s
 ref = snapshot()
 libs = ["np", "ak"]
 try:
@@ -109,7 +117,32 @@ try:
     libs.append("pd")
 except ImportError:
     pass
-nh = 12 if tier == "quick" else 80
+def mutate(arr, kind):
+    try:
+        if arr.dtype == bool: arr[:] = ~arr
+        elif kind == "iadd": arr += 1
+        elif kind == "slice": arr[:] = 7
+        elif kind == "item": arr[0] = 3
+        else: arr.fill(9)
+        return kind
+    except ValueError:
+        return "readonly"
+# systematic pass first: every column of every table in every library is modified in place, then everything is looked up again
+for which in ("mdc", "emc"):
+    for li, lib in enumerate(libs):
+        t = p3.get_mdc_wire_position(lib) if which == "mdc" else p3.get_emc_crystal_position(lib)
+        cols = list(t.keys()) if lib == "np" else (t.fields if lib == "ak" else list(t.columns))
+        ops = []
+        for col in cols:
+            arr = t[col] if lib == "np" else (ak.to_numpy(t[col]) if lib == "ak" else t[col].to_numpy())
+            ops.append([which, lib, col, mutate(arr, "iadd")])
+        now = snapshot(FRESH_DTYPES[(li + (3 if which == "emc" else 0)) % len(FRESH_DTYPES)]); n_hist += 1
+        for k in ref:
+            if not np.array_equal(bits(ref[k]), bits(now[k])):
+                hist_bad.append({"history": [o for o in ops if o[2] in k or k.startswith("tab.") is False][:6] or ops[:3], "lookup": k, "systematic": True}); break
+        if hist_bad: break
+    if hist_bad: break
+nh = 0 if hist_bad else (12 if tier == "quick" else 80)
 for h in range(nh):
     ops = []
     for _ in range(rng.randrange(1, 5)):
@@ -129,7 +162,7 @@ for h in range(nh):
             except ValueError:
                 kind = "readonly"
             ops.append([which, lib, col, kind])
-    now = snapshot(); n_hist += 1
+    now = snapshot(FRESH_DTYPES[h % len(FRESH_DTYPES)]); n_hist += 1
     for k in ref:
         if not np.array_equal(bits(ref[k]), bits(now[k])):
             hist_bad.append({"history": ops, "lookup": k}); break
